@@ -1,13 +1,39 @@
 import GaeaVerif.Model.Noninterf
+import GaeaVerif.Model.PlanShared
+import GaeaVerif.Model.SliceAlias
 import GaeaVerif.Gen.Consts
 /-
   C07 — Concurrent sessions plan independently of each other.
-  `noninterference` is about the transition system of Model/Noninterf.lean; the
-  premise "planning never writes shared routing state" is the generated fact
-  `Gen.c07SharedWrites = []` (translator, regenerated from /repo on every run):
-  adding such a write to the source breaks `shared_state_never_written`.
+
+  Part 1 (abstract): `noninterference` for the transition system of Model/Noninterf.lean; its
+  premise is tied to the source by the syntactic fact `Gen.c07SharedWrites = []`.
+
+  Part 2 (the planning system of Model/PlanShared.lean): sessions step in any interleaving over
+  a shared state made of the routing configuration and the cells planning does write (global
+  sequences, math/rand's source, the log).  The set of cells follows the typed translator's fact
+  `Gen.c07Effects` (points-to analysis over go/ssa, harness/extract/c07ssa.go):
+    * `planning_reads_shared_only`   every effect of planning on shared memory listed by the
+      translator is one of the modelled cells — a store, append, map update … into the router,
+      a rule, the namespace or a package variable is not, and breaks this proof;
+    * `step_kinds_follow_facts`      the cells the model's steps write are exactly the cells of
+      the facts;
+    * `configuration_never_written`  no interleaving changes the configuration;
+    * `plans_on_initial_configuration`, `plan_independent_of_other_sessions`, `alone_plan`
+      every plan any session ends with is `planOf` of the INITIAL configuration, its statement
+      and the values it obtained itself; with no value needed it is exactly the plan of the
+      same statement planned alone;
+    * `draws_distinct`, `run_events`  sequence values are never handed out twice, whoever asks;
+    * `statements_kept`              no statement of a session is lost, duplicated or reordered.
+
+  Part 3 (Go slices over a heap of arrays, Model/SliceAlias.lean): the route result of a statement
+  starts as the rule's own sub table list (the getters hand out internal slices, fact
+  `Gen.c07AliasGetters`) and goes through RouteResult.Inter / Union with that list, windows of it
+  or new lists: `route_ops_leave_shared_lists_alone` — no array that existed before is written;
+  the `append(indexes[:0], x)` idiom of two seeded changes is (`…_witness`).
 -/
 namespace GaeaVerif.C07
+
+section abstract
 open GaeaVerif.Noninterf
 
 theorem stepOf_shared {S P : Type} (step : Step S P) (h : NoWrites step) (sys : Sys S P) (i : Nat) :
@@ -63,5 +89,505 @@ theorem write_interferes_witness :
 
 /-- non-vacuity: a read-only step function satisfies the premise -/
 example : NoWrites (fun (s : Nat) (p : Nat) => ((none : Option Nat), s + p)) := fun _ _ => rfl
+
+end abstract
+
+/-! ## Part 2: the planning system -/
+
+section planning
+open GaeaVerif.PlanShared
+variable {Cfg Stmt Plan : Type}
+
+theorem step_cfg (P : Planner Cfg Stmt Plan) (sh : Shared Cfg) (s : Sess Stmt Plan) :
+    (step P sh s).1.cfg = sh.cfg := by
+  unfold step
+  split
+  · split <;> rfl
+  · split <;> rfl
+
+theorem stepOf_cfg (P : Planner Cfg Stmt Plan) (sys : Sys Cfg Stmt Plan) (i : Nat) :
+    (sys.stepOf P i).1.shared.cfg = sys.shared.cfg := by
+  simp only [Sys.stepOf]; exact step_cfg P _ _
+
+theorem run_cfg (P : Planner Cfg Stmt Plan) (sys : Sys Cfg Stmt Plan) (sched : List Nat) :
+    (sys.run P sched).1.shared.cfg = sys.shared.cfg := by
+  induction sched generalizing sys with
+  | nil => rfl
+  | cons i is ih =>
+    simp only [Sys.run]
+    rw [ih, stepOf_cfg]
+
+/-- what the plans of a session's finished statements may be, and how far the one in progress is,
+    relative to a fixed configuration `c` -/
+def SessOk (P : Planner Cfg Stmt Plan) (c : Cfg) (s : Sess Stmt Plan) : Prop :=
+  (∀ e ∈ s.done, ∃ got, e.2 = P.planOf c e.1 got ∧ got.length = yieldCount (P.needs c e.1)) ∧
+  (∀ j, s.cur = some j → ∃ pre, P.needs c j.stmt = pre ++ j.todo ∧ j.got.length = yieldCount pre)
+
+theorem yieldCount_append (a b : List Need) : yieldCount (a ++ b) = yieldCount a + yieldCount b := by
+  simp [yieldCount, List.filter_append]
+
+theorem step_ok (P : Planner Cfg Stmt Plan) (sh : Shared Cfg) (s : Sess Stmt Plan)
+    (h : SessOk P sh.cfg s) : SessOk P sh.cfg (step P sh s).2.1 := by
+  obtain ⟨hd, hc⟩ := h
+  unfold step
+  split
+  next hcur =>
+    split
+    · exact ⟨hd, hc⟩
+    next st q hq =>
+      refine ⟨hd, ?_⟩
+      intro j hj
+      simp only [Option.some.injEq] at hj
+      subst hj
+      exact ⟨[], by simp, by simp [yieldCount]⟩
+  next j hcur =>
+    obtain ⟨pre, hpre, hlen⟩ := hc j hcur
+    split
+    next htodo =>
+      refine ⟨?_, by intro j' hj'; simp at hj'⟩
+      intro e he
+      simp only [List.mem_append, List.mem_singleton] at he
+      rcases he with he | he
+      · exact hd e he
+      · subst he
+        refine ⟨j.got, rfl, ?_⟩
+        rw [hlen, hpre, htodo]; simp
+    next k t htodo =>
+      refine ⟨hd, ?_⟩
+      intro j' hj'
+      simp only [Option.some.injEq] at hj'
+      subst hj'
+      refine ⟨pre ++ [.draw k], by simp [hpre, htodo], ?_⟩
+      rw [List.length_append, yieldCount_append, hlen]; rfl
+    next t htodo =>
+      refine ⟨hd, ?_⟩
+      intro j' hj'
+      simp only [Option.some.injEq] at hj'
+      subst hj'
+      refine ⟨pre ++ [.rnd], by simp [hpre, htodo], ?_⟩
+      rw [List.length_append, yieldCount_append, hlen]; rfl
+    next t htodo =>
+      refine ⟨hd, ?_⟩
+      intro j' hj'
+      simp only [Option.some.injEq] at hj'
+      subst hj'
+      refine ⟨pre ++ [.logLine], by simp [hpre, htodo], ?_⟩
+      rw [yieldCount_append, hlen]; rfl
+
+
+def SysOk (P : Planner Cfg Stmt Plan) (c : Cfg) (sys : Sys Cfg Stmt Plan) : Prop := ∀ i, SessOk P c (sys.sess i)
+
+theorem fresh_ok (P : Planner Cfg Stmt Plan) (c : Cfg) (q : List Stmt) : SessOk P c (Sess.fresh q : Sess Stmt Plan) :=
+  ⟨by intro e he; simp [Sess.fresh] at he, by intro j hj; simp [Sess.fresh] at hj⟩
+
+theorem stepOf_ok (P : Planner Cfg Stmt Plan) (sys : Sys Cfg Stmt Plan) (i : Nat)
+    (h : SysOk P sys.shared.cfg sys) : SysOk P sys.shared.cfg (sys.stepOf P i).1 := by
+  intro j
+  simp only [Sys.stepOf]
+  by_cases hj : j = i
+  · subst hj; simp only [if_true]; exact step_ok P _ _ (h j)
+  · simp only [hj, if_false]; exact h j
+
+theorem run_ok (P : Planner Cfg Stmt Plan) (sys : Sys Cfg Stmt Plan) (sched : List Nat)
+    (h : SysOk P sys.shared.cfg sys) : SysOk P sys.shared.cfg (sys.run P sched).1 := by
+  induction sched generalizing sys with
+  | nil => exact h
+  | cons i is ih =>
+    simp only [Sys.run]
+    have h1 := stepOf_ok P sys i h
+    have hc := stepOf_cfg P sys i
+    rw [← hc] at h1 ⊢
+    exact ih _ h1
+
+theorem plans_on_initial_configuration (P : Planner Cfg Stmt Plan) (sys : Sys Cfg Stmt Plan)
+    (hfresh : ∀ i, ∃ q, sys.sess i = Sess.fresh q) (sched : List Nat) (i : Nat)
+    (e : Stmt × Plan) (he : e ∈ ((sys.run P sched).1.sess i).done) :
+    ∃ got, e.2 = P.planOf sys.shared.cfg e.1 got ∧ got.length = yieldCount (P.needs sys.shared.cfg e.1) := by
+  have h0 : SysOk P sys.shared.cfg sys := by
+    intro j; obtain ⟨q, hq⟩ := hfresh j; rw [hq]; exact fresh_ok P _ q
+  exact (run_ok P sys sched h0 i).1 e he
+
+theorem plan_independent_of_other_sessions (P : Planner Cfg Stmt Plan) (sys : Sys Cfg Stmt Plan)
+    (hfresh : ∀ i, ∃ q, sys.sess i = Sess.fresh q) (sched : List Nat) (i : Nat)
+    (e : Stmt × Plan) (he : e ∈ ((sys.run P sched).1.sess i).done)
+    (hno : yieldCount (P.needs sys.shared.cfg e.1) = 0) :
+    e.2 = P.planOf sys.shared.cfg e.1 [] := by
+  obtain ⟨got, hp, hl⟩ := plans_on_initial_configuration P sys hfresh sched i e he
+  rw [hno] at hl
+  rw [List.length_eq_zero_iff.mp hl] at hp
+  exact hp
+
+/-- a session stepping `n` times with nobody else around -/
+def solo (P : Planner Cfg Stmt Plan) : Nat → Shared Cfg → Sess Stmt Plan → Shared Cfg × Sess Stmt Plan
+  | 0, sh, s => (sh, s)
+  | n + 1, sh, s => solo P n (step P sh s).1 (step P sh s).2.1
+
+theorem run_solo (P : Planner Cfg Stmt Plan) (sys : Sys Cfg Stmt Plan) (i n : Nat) :
+    ((sys.run P (List.replicate n i)).1.shared, (sys.run P (List.replicate n i)).1.sess i)
+      = solo P n sys.shared (sys.sess i) := by
+  induction n generalizing sys with
+  | zero => rfl
+  | succ n ih =>
+    simp only [List.replicate_succ, Sys.run, solo]
+    rw [ih]
+    simp [Sys.stepOf]
+
+theorem step_log (P : Planner Cfg Stmt Plan) (sh : Shared Cfg) (q : List Stmt) (st : Stmt) (t : List Need)
+    (got : List Nat) (done : List (Stmt × Plan)) :
+    step P sh { queue := q, cur := some { stmt := st, todo := .logLine :: t, got := got }, done := done }
+      = ({ sh with log := sh.log + 1 }, { queue := q, cur := some { stmt := st, todo := t, got := got }, done := done }, none) := rfl
+
+/-- working alone on a statement whose remaining needs are log lines only: after writing them and
+    one more step the plan is `planOf` of the configuration and the values obtained so far -/
+theorem solo_finish (P : Planner Cfg Stmt Plan) (q : List Stmt) (st : Stmt) (got : List Nat) (done : List (Stmt × Plan))
+    (todo : List Need) (hall : ∀ n ∈ todo, n = Need.logLine) (sh : Shared Cfg) :
+    (solo P (todo.length + 1) sh { queue := q, cur := some { stmt := st, todo := todo, got := got }, done := done }).2.done
+      = done ++ [(st, P.planOf sh.cfg st got)] := by
+  induction todo generalizing sh with
+  | nil => rfl
+  | cons n t ih =>
+    have hn : n = Need.logLine := hall n (by simp)
+    subst hn
+    have ht : ∀ n ∈ t, n = Need.logLine := fun n hn => hall n (by simp [hn])
+    show (solo P (t.length + 1) (step P sh _).1 (step P sh _).2.1).2.done = _
+    rw [step_log]
+    exact ih ht _
+
+/-- **planned alone**: a session that is alone in the namespace and has one statement that needs no
+    value from the shared cells ends, after `needs + 2` steps, with the plan `planOf cfg st []` -/
+theorem alone_plan (P : Planner Cfg Stmt Plan) (sh : Shared Cfg) (st : Stmt)
+    (hall : ∀ n ∈ P.needs sh.cfg st, n = Need.logLine) (others : Nat → Sess Stmt Plan) :
+    ((Sys.run P { shared := sh, sess := fun j => if j = 0 then Sess.fresh [st] else others j }
+        (List.replicate ((P.needs sh.cfg st).length + 2) 0)).1.sess 0).done = [(st, P.planOf sh.cfg st [])] := by
+  have h := run_solo P { shared := sh, sess := fun j => if j = 0 then Sess.fresh [st] else others j } 0 ((P.needs sh.cfg st).length + 2)
+  have h2 := congrArg (fun p => p.2.done) h
+  simp only [if_true] at h2
+  rw [h2]
+  show (solo P ((P.needs sh.cfg st).length + 1) (step P sh (Sess.fresh [st])).1 (step P sh (Sess.fresh [st])).2.1).2.done = _
+  have := solo_finish P [] st [] [] (P.needs sh.cfg st) hall sh
+  simpa [step, Sess.fresh] using this
+
+theorem step_stmts (P : Planner Cfg Stmt Plan) (sh : Shared Cfg) (s : Sess Stmt Plan) :
+    (step P sh s).2.1.stmts = s.stmts := by
+  unfold step
+  split
+  next hcur =>
+    split
+    next hq => rfl
+    next st q hq => simp [Sess.stmts, hcur, hq]
+  next j hcur =>
+    split <;> simp [Sess.stmts, hcur]
+
+theorem step_event (P : Planner Cfg Stmt Plan) (sh : Shared Cfg) (s : Sess Stmt Plan) (k v : Nat)
+    (h : (step P sh s).2.2 = some (k, v)) : v = sh.seq k + 1 ∧ (step P sh s).1.seq k = v := by
+  cases hc : s.cur with
+  | none =>
+    cases hq : s.queue <;> simp [step, hc, hq] at h
+  | some j =>
+    cases ht : j.todo with
+    | nil => simp [step, hc, ht] at h
+    | cons n t =>
+      cases n with
+      | draw k' =>
+        simp only [step, hc, ht, Option.some.injEq, Prod.mk.injEq] at h
+        obtain ⟨rfl, rfl⟩ := h
+        simp [step, hc, ht]
+      | rnd => simp [step, hc, ht] at h
+      | logLine => simp [step, hc, ht] at h
+
+theorem step_seq_mono (P : Planner Cfg Stmt Plan) (sh : Shared Cfg) (s : Sess Stmt Plan) (k : Nat) :
+    sh.seq k ≤ (step P sh s).1.seq k := by
+  cases hc : s.cur with
+  | none =>
+    cases hq : s.queue <;> simp [step, hc, hq]
+  | some j =>
+    cases ht : j.todo with
+    | nil => simp [step, hc, ht]
+    | cons n t =>
+      cases n with
+      | draw k' =>
+        simp only [step, hc, ht]
+        by_cases hk : k = k'
+        · simp [hk]
+        · simp [hk]
+      | rnd => simp [step, hc, ht]
+      | logLine => simp [step, hc, ht]
+
+/-- the sequence values drawn in a run: per sequence strictly increasing in the order they were
+    drawn, all above what the sequence had issued before the run -/
+theorem run_events (P : Planner Cfg Stmt Plan) (sys : Sys Cfg Stmt Plan) (sched : List Nat) :
+    (sys.run P sched).2.Pairwise (fun a b => a.1 = b.1 → a.2 < b.2) ∧
+    ∀ e ∈ (sys.run P sched).2, sys.shared.seq e.1 < e.2 := by
+  induction sched generalizing sys with
+  | nil => simp [Sys.run]
+  | cons i is ih =>
+    obtain ⟨ihp, ihb⟩ := ih (sys.stepOf P i).1
+    have hmono : ∀ k, sys.shared.seq k ≤ (sys.stepOf P i).1.shared.seq k := by
+      intro k; simp only [Sys.stepOf]; exact step_seq_mono P _ _ k
+    simp only [Sys.run]
+    cases hev : (sys.stepOf P i).2 with
+    | none =>
+      simp only [List.nil_append]
+      exact ⟨ihp, fun e he => Nat.lt_of_le_of_lt (hmono e.1) (ihb e he)⟩
+    | some ev =>
+      obtain ⟨k, v⟩ := ev
+      have hst := step_event P sys.shared (sys.sess i) k v (by simpa [Sys.stepOf] using hev)
+      simp only [List.singleton_append, List.pairwise_cons, List.mem_cons]
+      refine ⟨⟨?_, ihp⟩, ?_⟩
+      · intro b hb hkb
+        have := ihb b hb
+        have hkb' : k = b.1 := hkb
+        rw [← hkb'] at this
+        have h2 : (sys.stepOf P i).1.shared.seq k = v := by simpa [Sys.stepOf] using hst.2
+        omega
+      · intro e he
+        rcases he with rfl | he
+        · show sys.shared.seq k < v
+          omega
+        · exact Nat.lt_of_le_of_lt (hmono e.1) (ihb e he)
+
+theorem draws_distinct (P : Planner Cfg Stmt Plan) (sys : Sys Cfg Stmt Plan) (sched : List Nat) :
+    (sys.run P sched).2.Nodup := by
+  have h := (run_events P sys sched).1
+  refine List.Pairwise.imp ?_ h
+  intro a b hab heq
+  subst heq
+  exact Nat.lt_irrefl _ (hab rfl)
+
+/-- no statement of a session is lost, duplicated or reordered by any interleaving -/
+theorem statements_kept (P : Planner Cfg Stmt Plan) (sys : Sys Cfg Stmt Plan) (sched : List Nat) (i : Nat) :
+    ((sys.run P sched).1.sess i).stmts = (sys.sess i).stmts := by
+  induction sched generalizing sys with
+  | nil => rfl
+  | cons j js ih =>
+    simp only [Sys.run]
+    rw [ih]
+    simp only [Sys.stepOf]
+    by_cases h : i = j
+    · subst h; simp only [if_true]; exact step_stmts P _ _
+    · simp only [h, if_false]
+
+/-- **C07, the shared configuration is read-only**: whatever the sessions do, in whatever order. -/
+theorem configuration_never_written (P : Planner Cfg Stmt Plan) (sys : Sys Cfg Stmt Plan) (sched : List Nat) :
+    (sys.run P sched).1.shared.cfg = sys.shared.cfg := run_cfg P sys sched
+
+end planning
+
+/-! ## Part 3: route results alias the rule's list of sub tables (Model/SliceAlias.lean) -/
+
+section aliasing
+open GaeaVerif.SliceAlias
+
+theorem frame_refl (n : Nat) (h : Heap) : Frame n h h := ⟨Nat.le_refl _, fun _ _ => rfl⟩
+
+theorem frame_trans {n : Nat} {h1 h2 h3 : Heap} (a : Frame n h1 h2) (b : Frame n h2 h3) : Frame n h1 h3 :=
+  ⟨Nat.le_trans a.1 b.1, fun x hx => (b.2 x hx).trans (a.2 x hx)⟩
+
+theorem frame_alloc (n : Nat) (h : Heap) (xs : List Int) (cap : Nat) (hn : n ≤ h.length) :
+    Frame n h (h.alloc xs cap).1 ∧ n ≤ (h.alloc xs cap).2.arr := by
+  refine ⟨⟨by simp [Heap.alloc], ?_⟩, by simpa [Heap.alloc] using hn⟩
+  intro a ha
+  have : a < h.length := Nat.lt_of_lt_of_le ha hn
+  simp [Heap.alloc, List.getD, List.getElem?_append_left this]
+
+theorem frame_setAt (n : Nat) (h : Heap) (a i : Nat) (x : Int) (ha : n ≤ a) : Frame n h (h.setAt a i x) := by
+  refine ⟨by simp [Heap.setAt], ?_⟩
+  intro b hb
+  have : a ≠ b := by omega
+  simp [Heap.setAt, List.getD, this]
+
+theorem frame_append1 (n : Nat) (h : Heap) (s : Slice) (x : Int) (hn : n ≤ h.length) (hs : n ≤ s.arr) :
+    Frame n h (append1 h s x).1 ∧ n ≤ (append1 h s x).2.arr := by
+  unfold append1
+  split
+  · exact ⟨frame_setAt n h _ _ x hs, hs⟩
+  · exact frame_alloc n h _ _ hn
+
+theorem frame_appendAll (n : Nat) (xs : List Int) (h : Heap) (s : Slice) (hn : n ≤ h.length) (hs : n ≤ s.arr) :
+    Frame n h (appendAll h s xs).1 ∧ n ≤ (appendAll h s xs).2.arr := by
+  induction xs generalizing h s with
+  | nil => exact ⟨frame_refl n h, hs⟩
+  | cons x xs ih =>
+    have h1 := frame_append1 n h s x hn hs
+    have h2 := ih (append1 h s x).1 (append1 h s x).2 (Nat.le_trans hn h1.1.1) h1.2
+    exact ⟨frame_trans h1.1 h2.1, h2.2⟩
+
+theorem frame_interLoop (n : Nat) (l1 l2 : Slice) (fuel : Nat) (h : Heap) (l3 : Slice) (i j : Nat)
+    (hn : n ≤ h.length) (hs : n ≤ l3.arr) :
+    Frame n h (interLoop l1 l2 fuel h l3 i j).1 ∧ n ≤ (interLoop l1 l2 fuel h l3 i j).2.arr := by
+  induction fuel generalizing h l3 i j with
+  | zero => exact ⟨frame_refl n h, hs⟩
+  | succ fuel ih =>
+    unfold interLoop
+    split
+    · split
+      · have h1 := frame_append1 n h l3 (h.get l1 i) hn hs
+        have h2 := ih (append1 h l3 (h.get l1 i)).1 (append1 h l3 (h.get l1 i)).2 (i + 1) (j + 1) (Nat.le_trans hn h1.1.1) h1.2
+        exact ⟨frame_trans h1.1 h2.1, h2.2⟩
+      · split
+        · exact ih h l3 (i + 1) j hn hs
+        · exact ih h l3 i (j + 1) hn hs
+    · exact ⟨frame_refl n h, hs⟩
+
+theorem frame_interList (n : Nat) (h : Heap) (l1 l2 : Slice) (hn : n ≤ h.length) :
+    Frame n h (interList h l1 l2).1 ∧ n ≤ (interList h l1 l2).2.arr := by
+  unfold interList
+  split
+  · exact frame_alloc n h _ _ hn
+  · have h1 := frame_alloc n h [] (l1.len + l2.len) hn
+    have h2 := frame_interLoop n l1 l2 (l1.len + l2.len) _ _ 0 0 (Nat.le_trans hn h1.1.1) h1.2
+    exact ⟨frame_trans h1.1 h2.1, h2.2⟩
+
+theorem frame_unionLoop (n : Nat) (l1 l2 : Slice) (fuel : Nat) (h : Heap) (l3 : Slice) (i j : Nat)
+    (hn : n ≤ h.length) (hs : n ≤ l3.arr) :
+    Frame n h (unionLoop l1 l2 fuel h l3 i j).1 ∧ n ≤ (unionLoop l1 l2 fuel h l3 i j).2.1.arr := by
+  induction fuel generalizing h l3 i j with
+  | zero => exact ⟨frame_refl n h, hs⟩
+  | succ fuel ih =>
+    unfold unionLoop
+    split
+    · split
+      · have h1 := frame_append1 n h l3 (h.get l1 i) hn hs
+        have h2 := ih _ _ (i + 1) j (Nat.le_trans hn h1.1.1) h1.2
+        exact ⟨frame_trans h1.1 h2.1, h2.2⟩
+      · split
+        · have h1 := frame_append1 n h l3 (h.get l2 j) hn hs
+          have h2 := ih _ _ i (j + 1) (Nat.le_trans hn h1.1.1) h1.2
+          exact ⟨frame_trans h1.1 h2.1, h2.2⟩
+        · have h1 := frame_append1 n h l3 (h.get l1 i) hn hs
+          have h2 := ih _ _ (i + 1) (j + 1) (Nat.le_trans hn h1.1.1) h1.2
+          exact ⟨frame_trans h1.1 h2.1, h2.2⟩
+    · exact ⟨frame_refl n h, hs⟩
+
+theorem frame_unionList (n : Nat) (h : Heap) (l1 l2 : Slice) (hn : n ≤ h.length) :
+    Frame n h (unionList h l1 l2).1 := by
+  unfold unionList
+  split
+  · exact frame_refl n h
+  · split
+    · exact frame_refl n h
+    · have h1 := frame_alloc n h [] (l1.len + l2.len) hn
+      have h2 := frame_unionLoop n l1 l2 (l1.len + l2.len) _ _ 0 0 (Nat.le_trans hn h1.1.1) h1.2
+      have h12 := frame_trans h1.1 h2.1
+      simp only
+      split
+      · exact frame_trans h12 (frame_appendAll n _ _ _ (Nat.le_trans hn h12.1) h2.2).1
+      · split
+        · exact frame_trans h12 (frame_appendAll n _ _ _ (Nat.le_trans hn h12.1) h2.2).1
+        · exact h12
+
+theorem frame_evalArg (n : Nat) (h : Heap) (rule : Slice) (a : Arg) (hn : n ≤ h.length) :
+    Frame n h (evalArg h rule a).1 := by
+  cases a <;> simp only [evalArg] <;> first | exact frame_refl n h | exact (frame_alloc n h _ _ hn).1
+
+theorem frame_stepOp (n : Nat) (h : Heap) (rule idx : Slice) (op : Op) (hn : n ≤ h.length) :
+    Frame n h (stepOp h rule idx op).1 := by
+  cases op with
+  | inter a =>
+    have h1 := frame_evalArg n h rule a hn
+    exact frame_trans h1 (frame_interList n _ idx _ (Nat.le_trans hn h1.1)).1
+  | union a =>
+    have h1 := frame_evalArg n h rule a hn
+    exact frame_trans h1 (frame_unionList n _ idx _ (Nat.le_trans hn h1.1))
+
+theorem frame_runOps (n : Nat) (rule : Slice) (ops : List Op) (h : Heap) (idx : Slice) (hn : n ≤ h.length) :
+    Frame n h (runOps h rule idx ops).1 := by
+  induction ops generalizing h idx with
+  | nil => exact frame_refl n h
+  | cons op ops ih =>
+    have h1 := frame_stepOp n h rule idx op hn
+    exact frame_trans h1 (ih _ _ (Nat.le_trans hn h1.1))
+
+/-- **The rule's list of sub tables survives planning**: whatever sequence of Inter / Union steps a
+    statement's route result goes through — starting as the rule's own list, combined with the
+    list itself, with windows of it (makeLeList …) or with new lists — every array that existed
+    before, the rule's among them, holds what it held. -/
+theorem route_ops_leave_shared_lists_alone (h : Heap) (rule : Slice) (ops : List Op) (a : Nat) (ha : a < h.length) :
+    (runOps h rule rule ops).1.getD a [] = h.getD a [] :=
+  (frame_runOps h.length rule ops h rule (Nat.le_refl _)).2 a ha
+
+example : (runOps [[0, 1, 2, 3]] ⟨0, 0, 4, 4⟩ ⟨0, 0, 4, 4⟩ [.inter (.fresh [2]), .union (.gt 1), .inter .whole]).1.getD 0 []
+    = [0, 1, 2, 3] := by decide
+example : let r := runOps [[0, 1, 2, 3]] ⟨0, 0, 4, 4⟩ ⟨0, 0, 4, 4⟩ [.inter (.fresh [2]), .union (.gt 1), .inter .whole]
+    r.1.read r.2 = [2, 3] := by decide
+
+/-- Witness (seeds C07-3, C07-4): the "reset and append" idiom on a route result that still is the
+    rule's list writes the rule's first element. -/
+theorem append_in_place_writes_rule_list_witness :
+    (append1 [[0, 1, 2, 3]] ((⟨0, 0, 4, 4⟩ : Slice).sub 0 0) 2).1 = [[2, 1, 2, 3]] := by decide
+
+/-- Witness: appending to a window handed out by makeLtList overwrites the element behind it. -/
+theorem append_to_window_writes_rule_list_witness :
+    (append1 [[0, 1, 2, 3]] (makeLtList [[0, 1, 2, 3]] 2 ⟨0, 0, 4, 4⟩) 9).1 = [[0, 1, 9, 3]] := by decide
+
+end aliasing
+
+/-! ## The tie to the source: the cells follow the translator's facts -/
+
+open GaeaVerif.PlanShared
+
+/-- the cell a fact of the typed translator stands for; `none`: not a cell planning may write
+    (a write into the router, a rule, a shard, the namespace, a cache, a package variable …) -/
+def cellOf (kind target : String) : Option Cell :=
+  if kind = "call" then
+    if target = "sequence" then some Cell.seq
+    else if target = "rand" then some Cell.rand
+    else if target = "log" then some Cell.log
+    else none
+  else none
+
+/-- the cells the steps of the model write (the constructors of `Need`) -/
+def modelledCells : List Cell := [(Need.draw 0).cell, Need.rnd.cell, Need.logLine.cell]
+
+def factCells : List Cell := (GaeaVerif.Gen.c07Effects.filterMap fun e => cellOf e.2.1 e.2.2).eraseDups
+
+/-- **The proof obligation tied to the source** (typed translator): every place where the planning
+    code may write shared memory, hand a shared pointer to code that may write it, lock it or call
+    into an unanalysed package is one of the modelled cells.  A new store / append / map update
+    whose target may be the router, a rule, the namespace or a package variable makes this false. -/
+theorem planning_reads_shared_only :
+    (GaeaVerif.Gen.c07Effects.all fun e => (cellOf e.2.1 e.2.2).isSome) = true := by decide
+
+/-- the model has a step kind for every cell the facts name, and no other -/
+theorem step_kinds_follow_facts :
+    (factCells.all fun c => modelledCells.contains c) = true ∧
+    (modelledCells.all fun c => factCells.contains c) = true := by decide
+
+/-- the getters that hand out internal slices and maps of the shared configuration are the known
+    ones (every caller of a new one has to be looked at: the list is a proof obligation) -/
+theorem alias_getters_known :
+    (GaeaVerif.Gen.c07AliasGetters.map Prod.snd).eraseDups =
+      ["proxy/router.BaseRule.mycatDatabases", "proxy/router.BaseRule.slices",
+       "proxy/router.BaseRule.subTableIndexes", "proxy/router.Router.rules",
+       "proxy/server.Namespace.defaultPhyDBs"] := by decide
+
+/-! ## Non-vacuity -/
+
+/-- a planner whose plan is (routing of the statement under the configuration, values obtained) -/
+def demoPlanner : Planner Nat Nat (Nat × List Nat) :=
+  { needs := fun _ st => if st % 2 = 0 then [.logLine] else [.draw 0, .logLine]
+    planOf := fun cfg st got => (st % cfg, got)
+    rng := fun r => (r, r + 1) }
+
+def demoSys : Sys Nat Nat (Nat × List Nat) :=
+  { shared := { cfg := 4, seq := fun _ => 0, rand := 0, log := 0 }
+    sess := fun i => if i < 2 then Sess.fresh [i + 5, i + 8] else Sess.fresh [] }
+
+/-- two sessions interleaved step by step: both INSERT-like statements (odd) draw different values,
+    the plans are those of the initial configuration -/
+example : ((demoSys.run demoPlanner [0, 1, 0, 1, 0, 1, 0, 1, 0, 1, 0, 1, 0, 1, 0, 1]).1.sess 0).done
+    = [(5, (1, [1])), (8, (0, []))] := by decide
+example : ((demoSys.run demoPlanner [0, 1, 0, 1, 0, 1, 0, 1, 0, 1, 0, 1, 0, 1, 0, 1]).1.sess 1).done
+    = [(6, (2, [])), (9, (1, [2]))] := by decide
+example : (demoSys.run demoPlanner [0, 1, 0, 1, 0, 1, 0, 1, 0, 1, 0, 1, 0, 1, 0, 1]).2 = [(0, 1), (0, 2)] := by decide
+example : ∀ i, ∃ q, demoSys.sess i = Sess.fresh q := fun i => by
+  by_cases h : i < 2
+  · exact ⟨[i + 5, i + 8], by simp [demoSys, h]⟩
+  · exact ⟨[], by simp [demoSys, h]⟩
+
+/-- Witness that the read-only configuration matters: a planner step that wrote the configuration
+    (here: a second system whose configuration differs) gives another plan for the same statement. -/
+theorem configuration_matters_witness :
+    demoPlanner.planOf 4 6 [] ≠ demoPlanner.planOf 3 6 [] := by decide
 
 end GaeaVerif.C07
